@@ -6,6 +6,7 @@ package main
 import (
 	"fmt"
 	"os"
+	"strings"
 	"time"
 
 	"verifharness/kit"
@@ -17,14 +18,25 @@ func main() {
 	lap := func(what string) {
 		fmt.Fprintf(os.Stderr, "c05: %s done, %d cases, %.1fs\n", what, c.NextID(), time.Since(t0).Seconds())
 	}
-	partBudgets(c)
-	lap("budget functions")
-	partMapping(c)
-	lap("mapping")
-	partMethods(c)
-	lap("methods+validators")
-	partRounds(c)
-	lap("rounds")
+	// C05_PARTS (development only) restricts the run to some parts, e.g. C05_PARTS=R
+	parts := os.Getenv("C05_PARTS")
+	on := func(p string) bool { return parts == "" || strings.Contains(parts, p) }
+	if on("A") {
+		partBudgets(c)
+		lap("budget functions")
+	}
+	if on("M") {
+		partMapping(c)
+		lap("mapping")
+	}
+	if on("B") {
+		partMethods(c)
+		lap("methods+validators")
+	}
+	if on("R") {
+		partRounds(c)
+		lap("rounds")
+	}
 	c.Meta.Rule = "A: budget lists x instants at window edges (hit-1ns, hit, hit+1ns, hit+d-1ns, hit+d, ...) x pool sizes at percentage rounding boundaries; " +
 		"M: generated clusters (node health/deletion states) x budgets; B: each method's ComputeCommands under generated mappings; " +
 		"R: multi-round histories of disrupt calls with validation-time events, command completion and restarts. " +
